@@ -5,27 +5,29 @@ import pv, _ctx
 PROP = 'C15'
 LEAN_MODULE = 'ParsecVerif.Props.C15'
 DRIVERS = ['pv_CTX', 'pv_Runtime']
-THEOREMS = ['ParsecVerif.C15.C15_order', 'ParsecVerif.C15.C15_assert_holds', 'ParsecVerif.C15.C15_once_partial',
-            'ParsecVerif.C15.C15_not_after_last', 'ParsecVerif.C15.C15_compose_array', 'ParsecVerif.C15.C15_context_theorems_apply']
+THEOREMS = ['ParsecVerif.Compound.gi_cstep', 'ParsecVerif.C15.C15_order', 'ParsecVerif.C15.C15_assert_holds', 'ParsecVerif.C15.C15_once',
+            'ParsecVerif.C15.C15_completes_after_last', 'ParsecVerif.C15.C15_buggy_not_after_last', 'ParsecVerif.C15.C15_compose_array',
+            'ParsecVerif.C15.C15_context_theorems_apply']
 IMPL = 'parsec/compound.c (parsec_compose, parsec_compound_taskpool_startup, parsec_composed_taskpool_cb), parsec/scheduling.c (parsec_context_add_taskpool)'
 ENGINE = 'lean-trace'
 LEVEL = 'proof'
 LEVEL_TEXT = ('Lean 4 theorems about EVERY run of the compound machine built on the context machine of C06 (any number of compounds of any size n >= 1 in one context, any number of '
-              'threads and other taskpools, every interleaving): for i < j every task end of tp[i] precedes every task start of tp[j] (C15_order); the member whose termination is '
-              'detected is always array[completed], i.e. the assert of parsec_composed_taskpool_cb cannot fail, and tp[i+1] is enabled iff some remain (C15_assert_holds); the compound\'s '
-              'own completion callback runs exactly once (C15_once_partial); parsec_compose builds for every n >= 2 an array holding the members in order, NULL-terminated, never written '
-              'outside its allocation (C15_compose_array). The remaining half of the statement — the compound completes AFTER tp[n-1] — is FALSE of the code as written and its negation is '
-              'proved with a concrete run (C15_not_after_last) that is replayed on the real runtime: a compound has no termination detector when it is added, parsec_context_add_taskpool '
-              'installs the local one and declares it ready while nb_pending_actions is still 0, so the compound terminates (callback, decrement) inside add_taskpool, before its first '
-              'member runs. Tie: compositions of 2-20 generated PTG taskpools (3 JDF shapes) inside randomised multi-epoch histories on the real runtime, all schedulers, 1-8 threads; '
-              'the event sequence incl. every RMW of active_taskpools and of the compound\'s nb_pending_actions must be accepted by the compiled Lean machine; independent stamp oracle.')
-LEVEL_NOTE = ('The full statement "completes exactly once, after the last one" is kept as ParsecVerif.C15.CompletesAfterLast and refuted (finding, see docs/notes/C15.md); proved parts are '
-              'theorems about the model, tied to the code by trace acceptance on sampled runs. Nested compounds (a compound as member of another) are not modelled nor generated. '
-              'Compositions of one taskpool are the taskpool itself (parsec_compose(tp, NULL) = tp, checked on the real code).')
+              'threads and other taskpools, every interleaving; the compound object is a taskpool without tasks whose detector is armed by its startup hook, the release of its last pending '
+              'action by the callback of tp[n-1] detects its termination and runs its callback and decrement nested in that callback): for i < j every task end of tp[i] precedes every task '
+              'start of tp[j] (C15_order); the member whose termination is detected is always array[completed], i.e. the assert of parsec_composed_taskpool_cb cannot fail, and tp[i+1] is '
+              'enabled iff some remain (C15_assert_holds); the compound completes exactly once, if and only if all n members completed, and its completion is later than the callback and the last '
+              'task end of every member, in particular of tp[n-1] (C15_once, C15_completes_after_last = the full statement CompletesAfterLast); parsec_compose builds for every n >= 2 an array '
+              'holding the members in order, NULL-terminated, never written outside its allocation (C15_compose_array); the C06 invariants hold under every compound run '
+              '(C15_context_theorems_apply). The behaviour before the repair of compound.c is kept as cstepBuggy?/crunBuggy with the refutation C15_buggy_not_after_last. '
+              'Tie: compositions of 2-20 generated PTG taskpools (3 JDF shapes) inside randomised multi-epoch histories on the real runtime (compounds added by the master, by task bodies and by '
+              'completion callbacks, with injected preemptions), all schedulers, 1-8 threads; the event sequence incl. every RMW of active_taskpools and of the compound\'s nb_pending_actions must be '
+              'accepted by the compiled Lean machine; independent stamp oracle.')
+LEVEL_NOTE = ('Theorems are about the model, tied to the code by trace acceptance on sampled runs. Nested compounds (a compound as member of another) are not modelled nor generated. '
+              'Compositions of one taskpool are the taskpool itself (parsec_compose(tp, NULL) = tp, checked on the real code). Safety statements; liveness is not claimed.')
 TECHNIQUE = 'Lean 4 proof (restriction of the context machine, inductive invariant on the chain of members, stamps as ghost state) + trace acceptor on real runs + stamp oracle'
 ASSUMPTIONS = ['members of compounds are distinct PTG taskpools without user completion callback (asserted by the code); no nested compounds',
                'the assumptions of C06']
-KNOWN = {_ctx.KEY_COMPOUND_EARLY, _ctx.KEY_COMPOUND_HANG}
+KNOWN = set()
 
 
 def run(ctx, res, lines=None):
